@@ -5,7 +5,7 @@
 
      new <limit> <overflow>            fresh OverflowableBuffer(overflow), STRBUF_LIMIT = limit
      append <hex> | get <n> <0|1> | skip <n> <0|1> | len | getfile | close
-     fault <ctor-tmp|ctor-bio|copywrite> <one of the operations above>
+     fault <ctor-tmp|ctor-bio|copywrite|createwrite|appendwrite> <one of the operations above>
                                        the operation with an operating-system fault (Model: step_f)
      ronew <hex> <pos>                 ReadOnlyFileBasedBuffer(file) with file content / position
      prepare <size|none> | roget <n> <0|1> | roskip <n> | rolen | roclose *)
@@ -91,6 +91,7 @@ let rec handle flt w = match w with
   | "fault" :: kind :: rest ->
     let f = match kind with
       | "ctor-tmp" -> FCtor KTmp | "ctor-bio" -> FCtor KBio | "copywrite" -> FCopyWrite
+      | "createwrite" -> FCreateWrite | "appendwrite" -> FAppendWrite
       | _ -> failwith "bad fault" in
     handle f rest
   | ["append"; h] -> let s = bytes_of_hex h in do_op_f flt (OAppend s) (Some (QAppend s))
